@@ -100,6 +100,39 @@ def check(case):
     return None
 
 
+def check_score_init(order):
+    """TrackingMetricsScore: the i-th CLEAR belongs to the i-th target label (its history, its ground-truth count, its threshold), whatever order the
+    dictionaries list the labels in"""
+    from perception_eval.common.label import AutowareLabel
+    from perception_eval.evaluation.matching.object_matching import MatchingMode
+    from perception_eval.evaluation.metrics.tracking.clear import CLEAR
+    from perception_eval.evaluation.metrics.tracking.tracking_metrics_score import TrackingMetricsScore
+    from perception_eval.evaluation.result.object_result import DynamicObjectWithPerceptionResult
+    def hist(label, off):
+        frames_ = []
+        for t in range(3):
+            e = build.obj3d(dict(label=label, x=2.0 * t, y=0.0, uuid="e" + label))
+            g = build.obj3d(dict(label=label, x=2.0 * t + off, y=0.0, uuid="g" + label))
+            frames_.append([DynamicObjectWithPerceptionResult(e, g)])
+        return frames_
+    labels = [AutowareLabel.CAR, AutowareLabel.PEDESTRIAN]
+    thr = [0.5, 2.0]
+    hists = {AutowareLabel.CAR: hist("car", 1.0), AutowareLabel.PEDESTRIAN: hist("pedestrian", 1.0)}
+    gts = {AutowareLabel.CAR: 3, AutowareLabel.PEDESTRIAN: 2}
+    res = {l: hists[l] for l in (labels if order == "same" else reversed(labels))}
+    num = {l: gts[l] for l in (reversed(labels) if order == "same" else labels)}
+    ts = TrackingMetricsScore(res, num, labels, MatchingMode.CENTERDISTANCE, thr)
+    if len(ts.clears) != 2:
+        return f"{len(ts.clears)} CLEAR scores for 2 target labels"
+    for i, l in enumerate(labels):
+        want = CLEAR(hists[l], gts[l], [l], MatchingMode.CENTERDISTANCE, [thr[i]])
+        c = ts.clears[i]
+        if c.target_labels != [l] or (c.tp, c.fp, c.id_switch, c.num_ground_truth) != (want.tp, want.fp, want.id_switch, want.num_ground_truth) or c.matching_threshold_list != [thr[i]]:
+            return (f"score {i} (dictionaries listing the labels in {order} order): label {c.target_labels}, threshold {c.matching_threshold_list}, (TP, FP, switches, GT) = "
+                    f"{(c.tp, c.fp, c.id_switch, c.num_ground_truth)}; for label {l} at threshold {thr[i]} it is {(want.tp, want.fp, want.id_switch, want.num_ground_truth)}")
+    return None
+
+
 def scenarios():
     yield "perfect tracker", dict(history=[[("a", "car", "A", True), ("b", "car", "B", True)]] * 4, G=6), (6, 0, 0)
     yield "new id on a continuing target", dict(history=[[("a", "car", "A", True)], [("a", "car", "A", True)], [("z", "car", "A", True)], [("z", "car", "A", True)]], G=3), (3, 0, 1)
@@ -109,6 +142,10 @@ def scenarios():
 
 def search(item, seed):
     from perception_eval.evaluation.metrics.tracking.clear import CLEAR
+    for order in ("same", "reversed"):
+        why = check_score_init(order)
+        if why:
+            return dict(function="TrackingMetricsScore", input=dict(order=order), observed=why)
     for name, case, want in scenarios():
         why = check(case)
         if why:
@@ -137,6 +174,9 @@ def search(item, seed):
 
 
 def replay(payload):
+    if payload.get("function") == "TrackingMetricsScore":
+        why = check_score_init(payload["input"]["order"])
+        return (why is None, why or "ok")
     why = check(payload["input"])
     return (why is None, why or "ok")
 
